@@ -4,6 +4,7 @@ import (
 	"context"
 	"errors"
 	"fmt"
+	"net/url"
 	"sort"
 	"strconv"
 	"time"
@@ -320,6 +321,10 @@ func (s *Server) List(ctx context.Context, opts metav1.ListOptions) (runtime.Obj
 	case "error":
 		call.Outcome = "error"
 		return nil, ErrInjectedList
+	case "error-timeout":
+		// a failed list is fatal whatever the error value looks like
+		call.Outcome = "error"
+		return nil, fmt.Errorf("%w: %v", ErrInjectedList, &url.Error{Op: "Get", URL: "https://apiserver/list", Err: context.DeadlineExceeded})
 	case "nonlist":
 		call.Outcome = "nonlist"
 		return Build(s.Kind, Spec{NS: "x", Name: "notalist", RV: rv}), nil
@@ -406,6 +411,18 @@ func (s *Server) Watch(ctx context.Context, opts metav1.ListOptions) (watch.Inte
 		call.Outcome = "connect-error"
 		call.Ended = true
 		return nil, ErrInjectedWatch
+	}
+	if s.F.Roll("watch-connect-timeout") {
+		// what a client with a request timeout reports: a deadline error that is
+		// NOT the cancellation of the caller's own context
+		call.Outcome = "connect-timeout"
+		call.Ended = true
+		return nil, &url.Error{Op: "Get", URL: "https://apiserver/watch", Err: context.DeadlineExceeded}
+	}
+	if s.F.Roll("watch-connect-canceled-error") {
+		call.Outcome = "connect-canceled-error"
+		call.Ended = true
+		return nil, fmt.Errorf("watch aborted by a proxy: %w", context.Canceled)
 	}
 	from, err := strconv.Atoi(opts.ResourceVersion)
 	if err != nil {
